@@ -50,17 +50,37 @@ def rule_own(S):
     S.require('R-OWN', 'allocation sites', nsites, 12)
 
 
+def _gc_info_subjects(g, n, depth=0, seen=None):
+    """Variables X such that expression n is built from value::get_gc_info(X) - directly, through structured bindings,
+    std::get, or locals that hold such parts."""
+    out = set()
+    seen = set() if seen is None else seen
+    if n is None or depth > 5:
+        return out
+    for x in g.walk(n):
+        if is_call(x, cq=Y + 'value::get_gc_info'):
+            a = call_args(g, x)
+            rv = root_var(g, a[0]) if a else None
+            if rv:
+                out.add(rv)
+        elif x['k'] == 'DeclRefExpr' and x.get('dk') in ('binding', 'var'):
+            vid = x.get('of') if x.get('dk') == 'binding' else x.get('id')
+            if vid in seen:
+                continue
+            seen.add(vid)
+            ini = R.var_decl_init(g, vid) if vid else None
+            if ini is not None:
+                out |= _gc_info_subjects(g, ini, depth + 1, seen)
+    return out
+
+
 def _retires_param(g, pid):
     """Does g hand value::get_gc_info(<param pid>) to push_value_container?"""
     for nd in g.all_nodes():
         if is_call(nd, cq=Y + 'garbage_collection::push_value_container'):
             a = call_args(g, nd)
-            for x in g.walk(a[0]) if a else []:
-                if x['k'] == 'DeclRefExpr' and x.get('dk') == 'binding':
-                    ini = R.var_decl_init(g, x.get('of')) if x.get('of') else None
-                    if ini is not None and any(is_call(y, cq=Y + 'value::get_gc_info') and
-                                               root_var(g, call_args(g, y)[0]) == pid for y in g.walk(ini)):
-                        return True
+            if a and pid in _gc_info_subjects(g, a[0]):
+                return True
     return False
 
 
@@ -90,13 +110,7 @@ def rule_swap(S):
                         return (old, True)
             if is_call(nd, cq=Y + 'garbage_collection::push_value_container') and old is not None:
                 a = call_args(f, nd)
-                good = False
-                for x in f.walk(a[0]) if a else []:
-                    if x['k'] == 'DeclRefExpr' and x.get('dk') == 'binding':
-                        ini = R.var_decl_init(f, x.get('of')) if x.get('of') else None
-                        if ini is not None and any(is_call(y, cq=Y + 'value::get_gc_info') and
-                                                   root_var(f, call_args(f, y)[0]) == old for y in f.walk(ini)):
-                            good = True
+                good = bool(a) and old in _gc_info_subjects(f, a[0])
                 return (old, retired or good)
             if nd['k'] == 'ReturnStmt':
                 if old is not None:
@@ -520,6 +534,8 @@ def run(S):
     rule_swap(S)
     rule_disp(S)
     rule_cache1(S)
+    from checks.C15 import rule_copy
+    rule_copy(S)
     from checks.C15 import rule_fslot
     rule_fslot(S)
     from checks.C13 import rule_atom
